@@ -3,7 +3,7 @@ import pipeline
 
 LEAN_MODULES = ['PomerolModel.Properties.C10']
 GENERATED = ['coreflags']
-THEOREMS = ["Pomerol.Properties.C10." + t for t in ['left_right_is_rotation', 'rotation_preserves_car', 'stored_annihilator_is_adjoint', 'rotate_back']]
+THEOREMS = ["Pomerol.Properties.C10." + t for t in ['left_right_is_rotation', 'rotation_preserves_car', 'stored_annihilator_is_adjoint', 'rotate_back', 'loops_compute_rotated_operator', 'loops_compute_rotated_operator_presets', 'prepare_pairs_the_right_blocks', 'jw_of_adjoint_operator', 'container_copy_is_annihilator', 'container_copy_is_annihilator_presets']]
 RULE = 'a case = random model and partition; every stored part of c+_i, c_i (container and singly computed) and c+_i c_j is compared elementwise with U_l^+ O U_r from the dumped eigenvectors, row/column-major views must agree, assembled operators must satisfy the CAR and c = (c+)^+; non-trivial = distinct case'
 TRUSTED = ["harness/pipe.cpp drives the real classes along the documented workflow; case-file protocol with hex doubles",
            "numeric oracle (lean/Driver/Numeric*.lean): IEEE double arithmetic of compiled Lean, full-Fock-space sums",
